@@ -250,6 +250,39 @@ def r5_pickle(idx, r):
     det = idx.cls("armi.reactor.grids.locations.IndexLocation").resolve("detachedCopy")
     if det is None:
         raise AnchorMissing("IndexLocation.detachedCopy")
+    # every implementation of LocationBase.associate re-points the locator itself at the new grid
+    lb = idx.cls("armi.reactor.grids.locations.LocationBase")
+    n_assoc = 0
+    for c in [lb] + idx.subclasses(lb):
+        f = c.methods.get("associate")
+        if f is None:
+            continue
+        n_assoc += 1
+        g = f.params()[1]
+
+        def eva(n, g=g):
+            if isinstance(n, ast.Assign) and norm(n) == f"self._grid = {g}":
+                return ["grid"]
+            if isinstance(n, ast.Call) and (is_super_call(n, "associate") or (dotted(n.func) or "").endswith("LocationBase.associate")) and any(norm(a) == g for a in n.args):
+                return ["grid"]
+            return []
+        fl = Flow(f.node, eva).run()
+        miss = [e for e in fl.normal_exits() if e.state.get("grid", (0, 0))[0] < 1]
+        r.require(not miss, f"{c.name}.associate:repoints-self", f, msg="associate() must point this locator at the new grid on every path (a copied/unpickled child otherwise stays attached to no grid or to the original's)")
+        if c.name == "MultiIndexLocation":
+            loop = next((x for x in f.node.body if isinstance(x, ast.For)), None)
+            r.require(loop is not None and norm(loop.iter) == "self._locations" and any(call_attr(x) == "associate" for x in iter_calls(loop)), "MultiIndexLocation.associate:sub-locations", f,
+                      msg="every sub-location must be re-associated too")
+    if n_assoc < 2:
+        raise AnalysisError("associate implementations not found")
+    dc = lb.resolve("detachedCopy") or det
+    for c in [lb] + idx.subclasses(lb):
+        f = c.methods.get("detachedCopy")
+        if f is None:
+            continue
+        rets = [x for x in walk_local(f.node) if isinstance(x, ast.Return) and x.value is not None]
+        okd = bool(rets) and all(isinstance(x.value, ast.Call) and norm(x.value.args[-1] if x.value.args else ast.Constant(0)) == "None" or (isinstance(x.value, ast.Name)) for x in rets)
+        r.require(okd, f"{c.name}.detachedCopy:no-grid", f, msg="a detached copy must be built without a grid")
 
 
 def r6_traversal(idx, r):
